@@ -15,7 +15,9 @@ Groups == [i \in 1..Len(TSeq) |-> [k |-> "group", vals |-> SetToSeq(GroupOf(TSeq
 \* set construction inputs: sequences (with repeats) of up to 3 members, per set type
 SetInputs(t) == LET M == TakeN(Members_(t.e, W), 4) IN SeqsUpTo(M, 3) \ {<<>>}
 SetTypes == {t \in GTypes : t.k = "set"}
+BigNums == {K(TNum, [lm |-> x]) : x \in {"i64maxp", "u64maxp", "f64int", "i64max", "f32maxp"}} \cup {NumV(2)}
 Perms == UNION {{[k |-> "setperm", ty |-> t, input |-> s] : s \in SetInputs(t)} : t \in SetTypes}
+         \cup {[k |-> "setperm", ty |-> TSet(TNum), input |-> s] : s \in {<<x, x>> : x \in BigNums} \cup {<<x, y, x>> : x \in BigNums, y \in {NumV(4)}}}
 ASSUME ndJsonSerialize(IOEnv.VOUT, Groups \o SetToSeq(Perms))
 ASSUME PrintT(<<"GEN", Len(Groups) + Cardinality(Perms)>>)
 VARIABLE x
